@@ -30,8 +30,10 @@ def run(tier, replay=None):
         with open(replay) as f:
             progs = [json.load(f)["replay"]["program"]]
     else:
-        n = 480 if thorough else 64
+        n = 480 if thorough else 48
         progs = progen.corpus(seed() + 3, n, nstmts=16 if thorough else 10)
+        # every operation kind in every stack-depth regime (16 = empty overflow table, 17 = one row, 18, deep)
+        progs += progen.depth_sweep(depths=(0, 17, 18, 19, 24, 40) if thorough else (0, 17, 18), rng_seed=seed())
     # (i) rows against the specification
     rec = vmtrace.record(progs, wd, "release")
     rows, states, rejects, runs = vmtrace.validate(rec, wd, "c03")
